@@ -298,6 +298,36 @@ def grow_decl(d, rng):
     return Decl(opts, multis, toggles, d.allowed, d.greedy)
 
 
+def retouch_decl(d, rng):
+    """the same entries with one to three attributes changed the way a program changes them through the references it kept:
+    a short name added, an environment variable bound, a default set or replaced, optional(), allow_reverse(),
+    another toggle default"""
+    used_letters = set(x[1] for x in d.opts + d.multis + d.toggles if x[1])
+    free = [c for c in "ghjrwy" if c not in used_letters]
+    rng.shuffle(free)
+    opts, multis, toggles = [list(x) for x in d.opts], [list(x) for x in d.multis], [list(x) for x in d.toggles]
+    allent = [("o", x) for x in opts] + [("m", x) for x in multis] + [("t", x) for x in toggles]
+    if not allent:
+        return d
+    for _ in range(rng.randint(1, 3)):
+        kind, x = rng.choice(allent)
+        r = rng.random()
+        if r < 0.2 and x[1] is None and free:
+            x[1] = free.pop()
+        elif r < 0.45 and x[2] is None:       # an environment binding cannot be changed once made (parser_error)
+            x[2] = rng.choice(["N_H1", "N_H2", "N_" + x[0].upper().replace("-", "_")])
+        elif r < 0.8:
+            if kind == "o":
+                x[3] = rng.choice(["d", "dd", "", "-5"])
+            elif kind == "m":
+                x[3] = rng.choice([["d1"], ["d1", "d2"], []])
+            else:
+                x[3] = rng.choice([0, 1, 2])
+        else:
+            x[4] = True
+    return Decl([tuple(x) for x in opts], [tuple(x) for x in multis], [tuple(x) for x in toggles], d.allowed, d.greedy)
+
+
 ENV_WORDS = ["", "x", "1", "0", "true", "FALSE", "on", "Off", "maybe", "-5", "--a=b", "a;b", ";", "a;;b;", "yes", "No", "TRUE ", "tRUE"]
 
 
@@ -332,9 +362,12 @@ def reuse_stream(tier, rng, n):
                 steps.append("a:" + wl(argv))
             elif k < 0.65:
                 steps.append("e:" + env_wire(random_env(cur, rng)))
-            elif k < 0.78:
+            elif k < 0.74:
                 cur = grow_decl(cur, rng)
                 steps.append("d:" + cur.wire())
+            elif k < 0.80:
+                cur = retouch_decl(cur, rng)
+                steps.append("u:" + cur.wire())
             elif k < 0.86:
                 steps.append("mc")
             else:
